@@ -321,9 +321,7 @@ func H_C05_sequence() {
 			f = &core.Forwarding{ProtocolId: core.PROTOCOL_INTERNAL}
 			must(f.SetAttributes(&fwdtypes.InternalAttributes{Recipient: user2.String()}))
 		}
-		err := send(f, math.NewInt(1000), math.NewInt(900))
-		verif.Assert(err == nil, "first-transfer-forwarded")
-		if err != nil {
+		if err := send(f, math.NewInt(1000), math.NewInt(900)); err != nil {
 			return
 		}
 		verif.Cover("first-forwarded")
@@ -341,9 +339,12 @@ func H_C05_sequence() {
 		f := &core.Forwarding{ProtocolId: core.PROTOCOL_CCTP}
 		must(f.SetAttributes(attr))
 		err := send(f, D, D)
-		verif.Assert(err == nil, "second-transfer-forwarded")
+		if err != nil {
+			verif.Assert(len(w.CCTP.reqs) == n1c && len(w.Hyp.reqs) == n1h && len(w.Int.reqs) == n1i, "no-request-when-refused")
+			return
+		}
 		verif.Assert(len(w.CCTP.reqs) == n1c+1 && len(w.Hyp.reqs) == n1h && len(w.Int.reqs) == n1i, "exactly-one-more-request-on-the-cctp-route")
-		if err != nil || len(w.CCTP.reqs) != n1c+1 {
+		if len(w.CCTP.reqs) != n1c+1 {
 			return
 		}
 		r := w.CCTP.reqs[n1c]
@@ -369,9 +370,12 @@ func H_C05_sequence() {
 		f := &core.Forwarding{ProtocolId: core.PROTOCOL_HYPERLANE}
 		must(f.SetAttributes(attr))
 		err := send(f, D, D)
-		verif.Assert(err == nil, "second-transfer-forwarded")
+		if err != nil {
+			verif.Assert(len(w.CCTP.reqs) == n1c && len(w.Hyp.reqs) == n1h && len(w.Int.reqs) == n1i, "no-request-when-refused")
+			return
+		}
 		verif.Assert(len(w.Hyp.reqs) == n1h+1 && len(w.CCTP.reqs) == n1c && len(w.Int.reqs) == n1i, "exactly-one-more-request-on-the-hyperlane-route")
-		if err != nil || len(w.Hyp.reqs) != n1h+1 {
+		if len(w.Hyp.reqs) != n1h+1 {
 			return
 		}
 		r := w.Hyp.reqs[n1h]
@@ -392,9 +396,12 @@ func H_C05_sequence() {
 		f := &core.Forwarding{ProtocolId: core.PROTOCOL_INTERNAL}
 		must(f.SetAttributes(&fwdtypes.InternalAttributes{Recipient: rcpt}))
 		err := send(f, D, D)
-		verif.Assert(err == nil, "second-transfer-forwarded")
+		if err != nil {
+			verif.Assert(len(w.CCTP.reqs) == n1c && len(w.Hyp.reqs) == n1h && len(w.Int.reqs) == n1i, "no-request-when-refused")
+			return
+		}
 		verif.Assert(len(w.Int.reqs) == n1i+1 && len(w.CCTP.reqs) == n1c && len(w.Hyp.reqs) == n1h, "exactly-one-more-request-on-the-internal-route")
-		if err != nil || len(w.Int.reqs) != n1i+1 {
+		if len(w.Int.reqs) != n1i+1 {
 			return
 		}
 		r := w.Int.reqs[n1i]
